@@ -44,6 +44,43 @@ type c25World struct {
 	log      []string
 	boundary bool // a removal/iteration touching a prefix boundary ran while >= 2 prefixes were populated
 	classes  map[string]bool
+	focus    int  // >= 0: the view a bulk history keeps coming back to (3 of 4 steps go to it)
+	reused   bool // a bulk history wrote through the focus view again after its bulk removal
+}
+
+// c25Show prints a key list in full when it is short and abbreviated (head, tail, count) when it is long, so that the
+// message of a violation in a bulk history stays readable and identical for the same input.
+func c25Show(ks []string) string {
+	if len(ks) <= 24 {
+		return fmt.Sprintf("%q", ks)
+	}
+
+	return fmt.Sprintf("%q ...(%d keys)... %q", ks[:6], len(ks), ks[len(ks)-6:])
+}
+
+// c25Diff returns the keys of want that got lacks and the keys of got that want lacks (both sorted inputs).
+func c25Diff(got, want []string) (missing, unexpected []string) {
+	g := map[string]bool{}
+	for _, k := range got {
+		g[k] = true
+	}
+
+	m := map[string]bool{}
+	for _, k := range want {
+		m[k] = true
+
+		if !g[k] {
+			missing = append(missing, k)
+		}
+	}
+
+	for _, k := range got {
+		if !m[k] {
+			unexpected = append(unexpected, k)
+		}
+	}
+
+	return missing, unexpected
 }
 
 func (w *c25World) sortedKeys() []string {
@@ -143,8 +180,9 @@ func (w *c25World) checkRaw(after string) {
 
 	if sig != "" {
 		// classify by what happened: a key outside the operation's target changed, or a targeted key survived
-		w.r.Violation(w.t, after+"-"+sig, "after %s the database differs from the model%s: database keys %q, model keys %q; prefixes %q; history: %s",
-			after, detail, gotK, want, w.prefixes, w.history())
+		missing, unexpected := c25Diff(gotK, want)
+		w.r.Violation(w.t, after+"-"+sig, "after %s the database differs from the model%s: keys the database lost %s, keys that should be gone or were never written %s; database keys %s, model keys %s; prefixes %q; history: %s",
+			after, detail, c25Show(missing), c25Show(unexpected), c25Show(gotK), c25Show(want), w.prefixes, w.history())
 	}
 }
 
@@ -172,8 +210,9 @@ func (w *c25World) checkViews() {
 		}
 
 		if fmt.Sprint(got) != fmt.Sprint(want) || len(got) != len(want) {
-			w.r.Violation(w.t, "view-keyset-differs", "view %q sees keys %q, the model has %q under that prefix (all raw keys %q); history: %s",
-				w.prefixes[i], got, want, w.sortedKeys(), w.history())
+			missing, unexpected := c25Diff(got, want)
+			w.r.Violation(w.t, "view-keyset-differs", "view %q Iter(nil) sees keys %s, the model has %s under that prefix (not delivered %s, delivered but not in the model %s; all raw keys %s); history: %s",
+				w.prefixes[i], c25Show(got), c25Show(want), c25Show(missing), c25Show(unexpected), c25Show(w.sortedKeys()), w.history())
 		}
 	}
 }
